@@ -5,14 +5,14 @@ package main
 // the answer's JSON fields.
 
 import (
-	"io/ioutil"
-	"github.com/sirupsen/logrus"
-	"strings"
 	"bytes"
 	"encoding/hex"
 	"encoding/json"
 	"fmt"
+	"github.com/sirupsen/logrus"
+	"io/ioutil"
 	"net/http/httptest"
+	"strings"
 	"sync"
 
 	"github.com/brocaar/lorawan"
